@@ -64,6 +64,11 @@ def run(ctx):
                 for lim in (3, 10):
                     ties.append(dict(entry=entry, limit=lim, nlp=nlp, fuzzy=False, thr=0, ponly=False, pboost=False, allplat=True, plats=[],
                                      nocross=False, boost=True, boostvar=8, query="lex", corpus=corpus))
+    # a database with far more distinct words than the shipped one (whatever bounds a vocabulary must bound it the same way every time)
+    for raw in ("qaabkz qaabmz frobnicate", "qaaacz widget qabcdz", "frobnicate widget", "qaaaaz qaaabz qaaacz qaaadz"):
+        for entry in ("universal", "legacynlp"):
+            ties.append(dict(entry=entry, limit=10, nlp=True, fuzzy=False, thr=0, ponly=False, pboost=False, allplat=True, plats=[],
+                             nocross=False, boost=False, query="raw", raw=raw, corpus="bigvocab", prime="none"))
     shipped = shipped_scenarios(rnd, 40 if q else 400)
     tr, info, ok, rej = engine.run_cases(ctx, base + ties + shipped, ["C02"], reps=6 if q else 25)
     for x in rej:
